@@ -114,7 +114,7 @@ Print Assumptions full_block_size_agrees.
 Theorem pins :
   (pin_CRSEncoder_set_params, pin_CRSEncoder_encode, pin_CRSDecoder_set_params, pin_CRSDecoder_decode,
    pin_Encoder_gather_data, pin_DownloadNode_decode_blocks)
-  = ("0a1295e05666d233", "5739b9509a8755c2", "e20e28cfa9f63af6", "e3cde839bc98ab40",
+  = ("0a1295e05666d233", "5739b9509a8755c2", "e20e28cfa9f63af6", "3d198c4c0649b057",
      "5470046c97d918dc", "d4edd272955a07d9")%string.
 Proof. exact pins_ok. Qed.
 Print Assumptions pins.
